@@ -131,8 +131,8 @@ def run(ctx):
                 "compared byte for byte with KeyCodec.tla's encoding by TLC (17 curves + 3 toy curves; d in {1, 2, 255, 256, n-1, n-2, "
                 "leading-zero scalars, scalars whose point has a leading-zero coordinate, random}), and TLC's strict decoder must "
                 "recover scalar / point / OID; library round trips give an equal key on the same curve with the same deterministic "
-                "signature; S->C: 11 variants per key written by TLC (incl. no publicKey, PKCS#8 v0, id-ecDH/id-ecMQV, short private "
-                "key, PEM) are loaded by the library; non-trivial = distinct (curve, d)")
+                "signature; S->C: 18 variants per key written by TLC (incl. no publicKey, PKCS#8 v0, id-ecDH/id-ecMQV, short private "
+                "key in both containers, PEM with LF / CRLF / 76 columns / no final newline) are loaded by the library; non-trivial = distinct (curve, d)")
     ctx.exhaustive = False
     ctx.assumptions += ["PKCS#8 version 0 or 1 both accepted as canonical output (the property does not fix it)",
                         "compressed encodings are not used on 1-byte fields"]
